@@ -8,6 +8,38 @@ DEPTH = {'quick': 2, 'thorough': 3}
 
 
 GIMPL_SHARDS = 8
+SUITE_SHARDS = 8
+_SUITES = None
+# shapes of a statement list: one statement, two, a lone compound statement, a compound statement followed / preceded by a simple one
+SUITE_SHAPES = [['a', 'NL'], ['a', 'NL', 'b', 'NL'], ['if', 'c', ':', 'NL', 'IND', 'd', 'NL', 'DED'], ['if', 'c', ':', 'NL', 'IND', 'd', 'NL', 'DED', 'e', 'NL'],
+                ['e', 'NL', 'if', 'c', ':', 'NL', 'IND', 'd', 'NL', 'DED'], ['pass', ';', 'a', 'NL']]
+
+
+def suite_sentences():
+    """E-PROD: every compound statement with every combination of suite shapes in its suites (body, else, handlers, finally): what a tree
+    transformer does with the second statement of a block, or with a block that merely starts like an elif, only shows in these shapes"""
+    global _SUITES
+    if _SUITES is None:
+        import itertools
+        heads = {
+            'if': [['if', 'a', ':'], ['else', ':']], 'if-elif': [['if', 'a', ':'], ['elif', 'b', ':'], ['else', ':']], 'while': [['while', 'a', ':'], ['else', ':']],
+            'for': [['for', 't', 'in', 'a', ':'], ['else', ':']], 'with': [['with', 'a', 'as', 't', ':']], 'def': [['def', 'f', '(', ')', ':']],
+            'class': [['class', 'C', ':']], 'try': [['try', ':'], ['except', 'a', ':'], ['else', ':'], ['finally', ':']],
+            'try-star': [['try', ':'], ['except', '*', 'a', ':'], ['else', ':'], ['finally', ':']], 'try-finally': [['try', ':'], ['finally', ':']],
+            'async-for': [['async', 'for', 't', 'in', 'a', ':'], ['else', ':']], 'match': [['match', 'a', ':', 'NL', 'IND', 'case', '1', ':'], ['case', '_', ':']],
+        }
+        out = []
+        for name, clauses in heads.items():
+            shapes = SUITE_SHAPES if len(clauses) <= 3 else SUITE_SHAPES[:4]
+            for combo in itertools.product(shapes, repeat=len(clauses)):
+                toks = []
+                for cl, body in zip(clauses, combo):
+                    toks += cl + ['NL', 'IND'] + body + ['DED']
+                if name == 'match':
+                    toks += ['DED']
+                out.append(tuple(toks))
+        _SUITES = out
+    return _SUITES
 _GIMPL = None
 
 
@@ -31,6 +63,7 @@ def shards_for(d, start='file', groups=None):
     sh = [p for p in gref.spine_shards(start) if gref.shard_min_cost(p) <= d]
     if start == 'file':
         sh += [('gimpl', k) for k in range(GIMPL_SHARDS)]
+        sh += [('suites', k) for k in range(SUITE_SHARDS)]
     return sh
 
 
@@ -39,6 +72,10 @@ def sentences(path, d, start='file'):
     if isinstance(path, tuple) and len(path) == 2 and path[0] == 'gimpl':
         for toks in gimpl_sentences()[path[1]::GIMPL_SHARDS]:
             yield toks, 1
+        return
+    if isinstance(path, tuple) and len(path) == 2 and path[0] == 'suites':
+        for toks in suite_sentences()[path[1]::SUITE_SHARDS]:
+            yield toks, 2
         return
     e = gref.Enum()
     yield from e.gen(gref.N(start), d, path)
@@ -101,7 +138,7 @@ def text_hash(text):
 
 
 FSTR_LITERALS = ["'s'", "f'{a}'", "f'{a}{b}'", "f'{a:{w}}'", "f'{a!r:>{w}}x'", "f'''{a}\n{b}'''", "f'''\n{a}\n'''", "f'''{a:\n}'''", "'''\n'''", "f'{a=}'", "rf'{a}\\n'", "u'é'",
-                 "f'é{é}'", "f'{a:{w}.{p}}'", "f'\\101\\0{a}\\x41\\N{EM DASH}{b}'", 'f"{d[\'k\']} {b}"', "f'{a:\\x3e{w}}{b}'", 'f"{d[\'é€\']}{b}"', "'''\n\ufeffx''' f'{(a),(b)}'"]
+                 "f'é{é}'", "f'{a:{w}.{p}}'", "f'\\101\\0{a}\\x41\\N{EM DASH}{b}'", 'f"{d[\'k\']} {b}"', "f'{a:\\x3e{w}}{b}'", 'f"{d[\'é€\']}{b}"', "'''\n\ufeffx''' f'{(a),(b)}'", "'\\\n'", "f'''\n{a} and {b}'''", "f'{a:xé}{b}'"]
 
 
 def fstring_product(n=3):
